@@ -519,7 +519,7 @@ func emitSign(m *dns.Msg, s *dns.SIG, kp keyPair) {
 		table = Hx(data) + ":ok:" + Hx(sig)
 		got = "ok:" + Hx(out)
 	}
-	args := append([]string{Itoa(m.Len()), Itoa(mu.Len()), Hx(mbuf)}, sigArgs(s)...)
+	args := append([]string{Itoa(mu.Len()), Hx(mbuf)}, sigArgs(s)...)
 	Emit("sign", append(args, table), got)
 }
 
@@ -794,7 +794,7 @@ func runC18(r *Rng, tier string, n int) {
 		m := genMsg(r, []int{1, 3, 6, 12}[r.Intn(4)])
 		m.Compress = i%2 == 1
 		others := []keyPair{extra[i%2], keys[(i+1)%len(keys)]}
-		if out := oracleMessage(r, m, kp, others, i < 3 || tier == "thorough"); out != nil && seedMsg == nil {
+		if out := oracleMessage(r, m, kp, others, i < 3 || (tier == "thorough" && i < 40)); out != nil && seedMsg == nil {
 			seedMsg = out
 		}
 	}
@@ -863,7 +863,7 @@ func runC18(r *Rng, tier string, n int) {
 			bit := r.Intn(len(mut) * 8)
 			switch {
 			case k < 3:
-				bit = r.Intn(12*8) // header: counts steer the loops
+				bit = r.Intn(12 * 8) // header: counts steer the loops
 			case k < 8:
 				bit = (rs.rr.start+r.Intn(rs.sigEnd-rs.rr.start))*8 + r.Intn(8) // SIG header and fixed RDATA
 			}
@@ -877,6 +877,22 @@ func runC18(r *Rng, tier string, n int) {
 		s2 := *s
 		s2.Algorithm = []uint8{dns.ED25519, dns.RSASHA256, dns.ECDSAP256SHA256, 1, 3}[r.Intn(5)]
 		emitVerify(out, &s2, kp, kp.key)
+	}
+	// compression saving below, at and above the SIG's own length (the case that
+	// made Sign fail before fix 2fe1c25): n records whose owner repeats the question
+	// name save 11 octets each; the SIG is 29 octets plus its signer name
+	for nrec := 2; nrec <= 5; nrec++ {
+		for l := 1; l <= 22; l += 1 + nrec%2 {
+			m := new(dns.Msg)
+			m.SetQuestion("example.org.", dns.TypeA)
+			m.Compress = true
+			for i := 0; i < nrec; i++ {
+				m.Answer = append(m.Answer, &dns.A{Hdr: dns.RR_Header{Name: "example.org.", Rrtype: dns.TypeA, Class: 1, Ttl: 60}, A: []byte{10, 0, 0, byte(i)}})
+			}
+			s := newSig(keys[0], now-3000, now+3000)
+			s.SignerName = strings.Repeat("k", l) + "."
+			emitSign(m, s, keys[0])
+		}
 	}
 	// ARCOUNT-1 = 254, 255, 256: minimal records so that the octets stay small enough for a model case
 	for _, na := range []int{254, 255, 256} {
